@@ -451,6 +451,8 @@ Qed.
 Lemma cor_B1_r a : cor a [B1] = [B1].
 Proof. unfold cor; simpl. destruct (bit_of a); reflexivity. Qed.
 
+Arguments elab_dyn_read : simpl never.
+
 Lemma elab_expr_fresh S c G n G' :
   fresh_cond c = true -> sigs_bounded (length G) S -> elab_expr S c G = (n, G') -> length G <= n.
 Proof.
@@ -480,6 +482,18 @@ Proof.
     inversion H; subst. apply ext_length. eapply ext_trans; eauto.
   - destruct (elab_expr S c G) as [na G1] eqn:H1. apply elab_expr_struct in H1 as [E1 _]; auto.
     inversion H; subst. apply ext_length; exact E1.
+  - destruct (elab_expr S c1 G) as [na G1] eqn:H1. destruct (elab_expr S c2 G1) as [nb G2] eqn:H2.
+    apply elab_expr_struct in H1 as [E1 _]; auto.
+    apply elab_expr_struct in H2 as [E2 _]; [|eapply sigs_bounded_mono; [apply ext_length; exact E1|exact Hb]].
+    apply elab_dyn_read_fresh in H. apply ext_length in E1. apply ext_length in E2. lia.
+  - destruct (elab_expr S c1 G) as [na G1] eqn:H1. destruct (elab_expr S c2 G1) as [nb G2] eqn:H2.
+    apply elab_expr_struct in H1 as [E1 _]; auto.
+    apply elab_expr_struct in H2 as [E2 _]; [|eapply sigs_bounded_mono; [apply ext_length; exact E1|exact Hb]].
+    apply elab_dyn_read_fresh in H. apply ext_length in E1. apply ext_length in E2. lia.
+  - destruct (elab_expr S c1 G) as [na G1] eqn:H1. destruct (elab_expr S c2 G1) as [nb G2] eqn:H2.
+    apply elab_expr_struct in H1 as [E1 _]; auto.
+    apply elab_expr_struct in H2 as [E2 _]; [|eapply sigs_bounded_mono; [apply ext_length; exact E1|exact Hb]].
+    apply elab_dyn_read_fresh in H. apply ext_length in E1. apply ext_length in E2. lia.
 Qed.
 
 Lemma celsesp_ok c b ch : fresh_cond c = true -> Pb b -> Pc ch -> Pc (CElseSp c b ch).
